@@ -23,12 +23,12 @@ Scope == [x \in ScopeNames |->
       [] x = "e"   -> List(TStr, <<>>)
       [] x = "nul" -> Null(TDyn)
       [] x = "s"   -> Str("a")
-      [] x = "p"   -> Str("global-p")          \* shadowed by the default iterator name of `dynamic "p"`
+      [] x = "p"   -> List(TStr, <<Str("g1"), Str("g2")>>)   \* a global with the name of the default iterator of `dynamic "p"`
       [] x = "ll"  -> List(TList(TNum), <<List(TNum, <<Num(2)>>), List(TNum, <<Num(4), Num(6)>>)>>)]
 
 IV(x, f) == NAttr(NVar(x), f)       \* x.key / x.value
 
-Colls == {NVar("l"), NVar("ls"), NVar("m"), NVar("st"), NVar("e"), NVar("nul"), NVar("s"),
+Colls == {NVar("p"), NVar("l"), NVar("ls"), NVar("m"), NVar("st"), NVar("e"), NVar("nul"), NVar("s"),
           NTuple(<<NNum(2), NNum(4)>>), NTuple(<<>>), NObject(<<NKeyId("k"), StrLit("v")>>)}
 
 \* content templates for `dynamic "p"` with iterator name it (the default is the block type)
@@ -54,7 +54,15 @@ NestedTemplates ==
     {DDyn("p", "it", c, <<>>, b) : c \in {NVar("l"), NVar("m")}, b \in NestedContent("it")}
     \cup {\* inner for_each over the outer iterator's value; inner default iterator shadows the outer one of the same name
           DDyn("p", "", NVar("ll"), <<>>, <<DAttr("a", IV("p", "key")), DDyn("p", "", IV("p", "value"), <<>>, <<DAttr("a", IV("p", "value"))>>)>>),
-          DDyn("p", "o", NVar("ll"), <<>>, <<DDyn("p", "", IV("o", "value"), <<>>, <<DAttr("a", NBin("+", IV("o", "key"), IV("p", "value")))>>)>>)}
+          DDyn("p", "o", NVar("ll"), <<>>, <<DDyn("p", "", IV("o", "value"), <<>>, <<DAttr("a", NBin("+", IV("o", "key"), IV("p", "value")))>>)>>),
+          \* three levels; levels 1 and 2 share the iterator name x, level 3 refers to x (must be level 2's)
+          DDyn("p", "x", NVar("ll"), <<>>,
+               <<DDyn("p", "x", IV("x", "value"), <<>>,
+                      <<DDyn("p", "y", NTuple(<<NNum(2), NNum(4)>>), <<>>,
+                             <<DAttr("a", NTpl("q", <<NInterp(0, IV("x", "key")), NTLit("-"), NInterp(0, IV("x", "value")), NTLit("-"), NInterp(0, IV("y", "value"))>>))>>)>>)>>),
+          DDyn("p", "", NVar("ll"), <<>>,
+               <<DDyn("p", "", IV("p", "value"), <<>>,
+                      <<DAttr("a", IV("p", "key")), DDyn("p", "z", NVar("st"), <<>>, <<DAttr("a", NTpl("q", <<NInterp(0, IV("p", "value")), NInterp(0, IV("z", "key"))>>))>>)>>)>>)}
 
 Statics == {DBlock("p", <<>>, <<DAttr("a", NNum(6))>>), DBlock("p", <<>>, <<>>), DBlock("q", <<"z">>, <<DAttr("a", StrLit("s"))>>),
             DAttr("a", NNum(2))}
@@ -69,7 +77,9 @@ Specs == {SBlockList("p", 0, 0, SAttr("a", TStr, FALSE)),
           SBlockMap("q", 1, SAttr("a", TStr, FALSE)),
           SBlockObject("q", 1, SAttr("a", TDyn, FALSE)),
           SObject(<<"a", "ps">>, <<SAttr("a", TNum, FALSE), SBlockTuple("p", 0, 0, SObject(<<"a", "inner">>, <<SAttr("a", TDyn, FALSE), SBlockTuple("p", 0, 0, SAttr("a", TDyn, FALSE))>>))>>),
-          SBlockTuple("p", 1, 2, SAttr("a", TDyn, TRUE))}
+          SBlockTuple("p", 1, 2, SAttr("a", TDyn, TRUE)),
+          SBlockTuple("p", 0, 0, SObject(<<"a", "l2">>, <<SAttr("a", TDyn, FALSE),
+              SBlockTuple("p", 0, 0, SObject(<<"a", "l3">>, <<SAttr("a", TDyn, FALSE), SBlockTuple("p", 0, 0, SAttr("a", TDyn, FALSE))>>))>>))}
 
 NoPred == R(Oom, FALSE)
 
